@@ -6,7 +6,9 @@ use crate::app::control::CommandStatus;
 use crate::app::measurement::*;
 use crate::app::parse::options::ParseOptions;
 use crate::app::variations::{Group12Var1, Group41Var1, Group41Var2, Group41Var3, Group41Var4};
-use crate::app::{BufferSize, FunctionCode, MaybeAsync, NullListener, RequestHeader, Sequence, Timeout, Timestamp};
+use crate::app::{
+    BufferSize, FunctionCode, MaybeAsync, NullListener, RequestHeader, Sequence, Timeout, Timestamp,
+};
 use crate::link::reader::LinkModes;
 use crate::link::{EndpointAddress, LinkErrorMode};
 use crate::outstation::database::*;
@@ -95,9 +97,18 @@ impl OutConfig {
         c.solicited_buffer_size = BufferSize::new(self.sol_tx.max(249) as usize).unwrap();
         c.unsolicited_buffer_size = BufferSize::new(self.unsol_tx.max(249) as usize).unwrap();
         c.rx_buffer_size = BufferSize::new(self.rx.max(249) as usize).unwrap();
-        c.decode_level = super::decode_level(self.decode[0], self.decode[1], self.decode[2], self.decode[3]);
-        c.confirm_timeout = Timeout::from_duration(Duration::from_millis(self.confirm_timeout_ms.max(1) as u64)).unwrap();
-        c.select_timeout = Timeout::from_duration(Duration::from_millis(self.select_timeout_ms.max(1) as u64)).unwrap();
+        c.decode_level = super::decode_level(
+            self.decode[0],
+            self.decode[1],
+            self.decode[2],
+            self.decode[3],
+        );
+        c.confirm_timeout =
+            Timeout::from_duration(Duration::from_millis(self.confirm_timeout_ms.max(1) as u64))
+                .unwrap();
+        c.select_timeout =
+            Timeout::from_duration(Duration::from_millis(self.select_timeout_ms.max(1) as u64))
+                .unwrap();
         c.features = Features {
             self_address: feature(self.self_address),
             broadcast: feature(self.broadcast),
@@ -199,7 +210,9 @@ pub struct Shared {
 
 impl Shared {
     fn push(&self, cb: Cb) {
-        let t = tokio::time::Instant::now().duration_since(self.start).as_millis() as u64;
+        let t = tokio::time::Instant::now()
+            .duration_since(self.start)
+            .as_millis() as u64;
         self.rec.lock().unwrap().log.push((t, cb));
     }
     pub fn take_log(&self) -> Vec<(u64, Cb)> {
@@ -208,7 +221,12 @@ impl Shared {
     fn status(&self, index: u16) -> CommandStatus {
         let b = self.beh.lock().unwrap();
         let n = b.control_status.len().max(1);
-        CommandStatus::from(b.control_status.get(index as usize % n).copied().unwrap_or(0))
+        CommandStatus::from(
+            b.control_status
+                .get(index as usize % n)
+                .copied()
+                .unwrap_or(0),
+        )
     }
 }
 
@@ -233,8 +251,14 @@ impl OutstationApplication for App {
         self.0.push(Cb::WarmRestart);
         self.0.beh.lock().unwrap().warm_restart
     }
-    fn freeze_counter(&mut self, indices: FreezeIndices, freeze_type: FreezeType, _database: &mut DatabaseHandle) -> Result<(), RequestError> {
-        self.0.push(Cb::Freeze(format!("{:?} {:?}", indices, freeze_type)));
+    fn freeze_counter(
+        &mut self,
+        indices: FreezeIndices,
+        freeze_type: FreezeType,
+        _database: &mut DatabaseHandle,
+    ) -> Result<(), RequestError> {
+        self.0
+            .push(Cb::Freeze(format!("{:?} {:?}", indices, freeze_type)));
         self.0.beh.lock().unwrap().freeze
     }
     fn support_write_analog_dead_bands(&mut self) -> bool {
@@ -270,10 +294,16 @@ struct Info(Shared);
 
 impl OutstationInformation for Info {
     fn process_request_from_idle(&mut self, header: RequestHeader) {
-        self.0.push(Cb::RequestFromIdle(header.function.as_u8(), header.control.seq.value()));
+        self.0.push(Cb::RequestFromIdle(
+            header.function.as_u8(),
+            header.control.seq.value(),
+        ));
     }
     fn broadcast_received(&mut self, function: FunctionCode, action: BroadcastAction) {
-        self.0.push(Cb::Broadcast(format!("{:?}", function), format!("{:?}", action)));
+        self.0.push(Cb::Broadcast(
+            format!("{:?}", function),
+            format!("{:?}", action),
+        ));
     }
     fn enter_solicited_confirm_wait(&mut self, ecsn: Sequence) {
         self.0.push(Cb::EnterSolConfirmWait(ecsn.value()));
@@ -288,7 +318,8 @@ impl OutstationInformation for Info {
         self.0.push(Cb::SolConfirmWaitNewRequest);
     }
     fn wrong_solicited_confirm_seq(&mut self, ecsn: Sequence, seq: Sequence) {
-        self.0.push(Cb::WrongSolConfirmSeq(ecsn.value(), seq.value()));
+        self.0
+            .push(Cb::WrongSolConfirmSeq(ecsn.value(), seq.value()));
     }
     fn unexpected_confirm(&mut self, unsolicited: bool, seq: Sequence) {
         self.0.push(Cb::UnexpectedConfirm(unsolicited, seq.value()));
@@ -322,12 +353,27 @@ impl ControlHandler for Controls {
 macro_rules! control_support {
     ($t:ty, $mirror:expr) => {
         impl ControlSupport<$t> for Controls {
-            fn select(&mut self, control: $t, index: u16, _database: &mut DatabaseHandle) -> CommandStatus {
+            fn select(
+                &mut self,
+                control: $t,
+                index: u16,
+                _database: &mut DatabaseHandle,
+            ) -> CommandStatus {
                 self.0.push(Cb::Select(format!("{:?}", control), index));
                 self.0.status(index)
             }
-            fn operate(&mut self, control: $t, index: u16, op_type: OperateType, database: &mut DatabaseHandle) -> CommandStatus {
-                self.0.push(Cb::Operate(format!("{:?}", control), index, format!("{:?}", op_type)));
+            fn operate(
+                &mut self,
+                control: $t,
+                index: u16,
+                op_type: OperateType,
+                database: &mut DatabaseHandle,
+            ) -> CommandStatus {
+                self.0.push(Cb::Operate(
+                    format!("{:?}", control),
+                    index,
+                    format!("{:?}", op_type),
+                ));
                 let status = self.0.status(index);
                 if status == CommandStatus::Success && self.0.beh.lock().unwrap().mirror_controls {
                     let f: fn(&$t, u16, &mut DatabaseHandle) = $mirror;
@@ -344,33 +390,56 @@ fn now_time() -> Time {
 }
 
 control_support!(Group12Var1, |c, index, db| {
-    let on = matches!(c.code.op_type, crate::app::control::OpType::LatchOn | crate::app::control::OpType::PulseOn);
+    let on = matches!(
+        c.code.op_type,
+        crate::app::control::OpType::LatchOn | crate::app::control::OpType::PulseOn
+    );
     db.transaction(|db| {
-        db.update(index, &BinaryOutputStatus::new(on, Flags::ONLINE, now_time()), UpdateOptions::detect_event());
+        db.update(
+            index,
+            &BinaryOutputStatus::new(on, Flags::ONLINE, now_time()),
+            UpdateOptions::detect_event(),
+        );
     });
 });
 control_support!(Group41Var1, |c, index, db| {
     let v = c.value as f64;
     db.transaction(|db| {
-        db.update(index, &AnalogOutputStatus::new(v, Flags::ONLINE, now_time()), UpdateOptions::detect_event());
+        db.update(
+            index,
+            &AnalogOutputStatus::new(v, Flags::ONLINE, now_time()),
+            UpdateOptions::detect_event(),
+        );
     });
 });
 control_support!(Group41Var2, |c, index, db| {
     let v = c.value as f64;
     db.transaction(|db| {
-        db.update(index, &AnalogOutputStatus::new(v, Flags::ONLINE, now_time()), UpdateOptions::detect_event());
+        db.update(
+            index,
+            &AnalogOutputStatus::new(v, Flags::ONLINE, now_time()),
+            UpdateOptions::detect_event(),
+        );
     });
 });
 control_support!(Group41Var3, |c, index, db| {
     let v = c.value as f64;
     db.transaction(|db| {
-        db.update(index, &AnalogOutputStatus::new(v, Flags::ONLINE, now_time()), UpdateOptions::detect_event());
+        db.update(
+            index,
+            &AnalogOutputStatus::new(v, Flags::ONLINE, now_time()),
+            UpdateOptions::detect_event(),
+        );
     });
 });
 control_support!(Group41Var4, |c, index, db| {
     let v = c.value;
     db.transaction(|db| {
-        db.update(index, &AnalogOutputStatus::new(v, Flags::ONLINE, now_time()), UpdateOptions::detect_event());
+        db.update(
+            index,
+            &AnalogOutputStatus::new(v, Flags::ONLINE, now_time()),
+            UpdateOptions::detect_event(),
+        );
     });
 });
 
@@ -382,7 +451,12 @@ pub enum Tx {
     /// a complete application fragment (reassembled by the reference transport function), sent to link address `dst`
     Fragment { t: u64, dst: u16, bytes: Vec<u8> },
     /// a link-layer frame that carries no user data (ACK, LINK_STATUS, REQUEST_LINK_STATUS, ...)
-    Link { t: u64, ctrl: u8, dst: u16, src: u16 },
+    Link {
+        t: u64,
+        ctrl: u8,
+        dst: u16,
+        src: u16,
+    },
     /// bytes that are not a valid link frame, or a broken segment series
     Garbage { t: u64, why: String },
 }
@@ -408,8 +482,16 @@ impl OutRig {
     pub async fn start(cfg: OutConfig, beh: AppBehaviour) -> OutRig {
         super::init_tracing();
         let start = tokio::time::Instant::now();
-        let shared = Shared { rec: Arc::new(Mutex::new(CbLog::default())), beh: Arc::new(Mutex::new(beh)), start };
-        let modes = LinkModes::stream(if cfg.discard { LinkErrorMode::Discard } else { LinkErrorMode::Close });
+        let shared = Shared {
+            rec: Arc::new(Mutex::new(CbLog::default())),
+            beh: Arc::new(Mutex::new(beh)),
+            start,
+        };
+        let modes = LinkModes::stream(if cfg.discard {
+            LinkErrorMode::Discard
+        } else {
+            LinkErrorMode::Close
+        });
         let (task, handle) = OutstationTask::create(
             Enabled::Yes,
             modes,
@@ -420,7 +502,8 @@ impl OutRig {
             Box::new(Info(shared.clone())),
             Box::new(Controls(shared.clone())),
         );
-        let (mut server, sessions) = ServerTask::create(Session::outstation(task), NullListener::create());
+        let (mut server, sessions) =
+            ServerTask::create(Session::outstation(task), NullListener::create());
         let polls = Polls::default();
         let fut = Counted::new(
             async move {
@@ -429,20 +512,38 @@ impl OutRig {
             polls.clone(),
         );
         let task = tokio::spawn(fut);
-        let mut rig = OutRig { cfg, shared, handle, polls, peer: None, sessions, task: Some(task), session_id: 0, tseq: 0, partial: None, start, task_failure: None };
+        let mut rig = OutRig {
+            cfg,
+            shared,
+            handle,
+            polls,
+            peer: None,
+            sessions,
+            task: Some(task),
+            session_id: 0,
+            tseq: 0,
+            partial: None,
+            start,
+            task_failure: None,
+        };
         rig.connect().await;
         rig
     }
 
     pub fn now_ms(&self) -> u64 {
-        tokio::time::Instant::now().duration_since(self.start).as_millis() as u64
+        tokio::time::Instant::now()
+            .duration_since(self.start)
+            .as_millis() as u64
     }
 
     /// hand the server loop a new connection (the previous one, if any, is replaced)
     pub async fn connect(&mut self) {
         let (io, peer) = pipe(false);
         self.session_id += 1;
-        let _ = self.sessions.send(NewSession::new(self.session_id, PhysLayer::Verif(io))).await;
+        let _ = self
+            .sessions
+            .send(NewSession::new(self.session_id, PhysLayer::Verif(io)))
+            .await;
         self.peer = Some(peer);
         self.tseq = 0;
         self.partial = None;
@@ -514,7 +615,9 @@ impl OutRig {
                         let text = engine::take_panic().unwrap_or_else(|| format!("panic@?: {e}"));
                         if self.task_failure.is_none() {
                             self.task_failure = Some(if text.contains("verif-spin") {
-                                Fail::new("spin", text.clone()).with_sig("spin: outstation task busy-loops without time advancing")
+                                Fail::new("spin", text.clone()).with_sig(
+                                    "spin: outstation task busy-loops without time advancing",
+                                )
                             } else {
                                 engine::panic_fail(&text)
                             });
@@ -540,32 +643,51 @@ impl OutRig {
         };
         for (at, c) in chunks {
             // exact virtual time of the write
-            let t = at.map(|i| i.duration_since(start).as_millis() as u64).unwrap_or(now);
+            let t = at
+                .map(|i| i.duration_since(start).as_millis() as u64)
+                .unwrap_or(now);
             match rl::try_frame(&c) {
                 rl::TryFrame::Ok(f, n) if n == c.len() => {
                     if f.payload.is_empty() {
-                        out.push(Tx::Link { t, ctrl: f.ctrl, dst: f.dst, src: f.src });
+                        out.push(Tx::Link {
+                            t,
+                            ctrl: f.ctrl,
+                            dst: f.dst,
+                            src: f.src,
+                        });
                         continue;
                     }
                     if f.ctrl != 0x44 {
-                        out.push(Tx::Garbage { t, why: format!("data frame with control {:#04x}", f.ctrl) });
+                        out.push(Tx::Garbage {
+                            t,
+                            why: format!("data frame with control {:#04x}", f.ctrl),
+                        });
                         continue;
                     }
                     let seg = Segment::from_payload(f.src, &f.payload).unwrap();
                     match (&mut self.partial, seg.fir) {
                         (None, true) | (Some(_), true) => {
                             if self.partial.is_some() {
-                                out.push(Tx::Garbage { t, why: "FIR segment while a fragment was being assembled".into() });
+                                out.push(Tx::Garbage {
+                                    t,
+                                    why: "FIR segment while a fragment was being assembled".into(),
+                                });
                             }
                             self.partial = Some((f.dst, seg.seq, seg.data.clone()));
                         }
                         (None, false) => {
-                            out.push(Tx::Garbage { t, why: "non-FIR segment with nothing to continue".into() });
+                            out.push(Tx::Garbage {
+                                t,
+                                why: "non-FIR segment with nothing to continue".into(),
+                            });
                             continue;
                         }
                         (Some((dst, seq, acc)), false) => {
                             if *dst != f.dst || seg.seq != (*seq + 1) & 0x3F {
-                                out.push(Tx::Garbage { t, why: "segment does not continue the previous one".into() });
+                                out.push(Tx::Garbage {
+                                    t,
+                                    why: "segment does not continue the previous one".into(),
+                                });
                                 self.partial = None;
                                 continue;
                             }
@@ -578,7 +700,13 @@ impl OutRig {
                         out.push(Tx::Fragment { t, dst, bytes });
                     }
                 }
-                _ => out.push(Tx::Garbage { t, why: format!("a write of {} bytes is not exactly one valid link frame", c.len()) }),
+                _ => out.push(Tx::Garbage {
+                    t,
+                    why: format!(
+                        "a write of {} bytes is not exactly one valid link frame",
+                        c.len()
+                    ),
+                }),
             }
         }
         out
